@@ -552,6 +552,17 @@ func (c *connection) flush() error {
 	if c.outputBuffer.IsEmpty() {
 		return nil
 	}
+	// the trigger has one slot: a completion signalled after an earlier Flush gave up (the poller finished the
+	// buffer between that Flush's last look at the trigger and its PollRW2R) may still be in it. Take it out
+	// before arming write interest, or this Flush would mistake it for its own completion.
+	select {
+	case err = <-c.writeTrigger:
+		if err != nil {
+			// not stale: the connection was closed meanwhile
+			return err
+		}
+	default:
+	}
 	err = c.operator.Control(PollR2RW)
 	if err != nil {
 		return Exception(err, "when flush")
